@@ -62,6 +62,7 @@ def main():
     ap.add_argument("--lastcase", default=None)
     ap.add_argument("--replay", action="append", default=[])
     ap.add_argument("--index", type=int, default=0)
+    ap.add_argument("--nworkers", type=int, default=1)
     args = ap.parse_args()
 
     prop = load_prop(args.prop)
@@ -98,6 +99,18 @@ def main():
                 result["harness_error"] = traceback.format_exc()
                 finish(3)
         finish(0)
+
+    prop.last_write = last.write
+    try:
+        prop.prelude(lib, stats, args.index, args.nworkers, args.tier)
+    except Violation as v:
+        reset_lib(lib, prop)
+        case = (v.detail or {}).get("case")
+        result["failure"] = {"case": core.enc(case), "msg": v.msg, "key": v.key, "detail": None}
+        finish(0)
+    except Exception:
+        result["harness_error"] = traceback.format_exc()
+        finish(3)
 
     from hypothesis import given, settings, seed, HealthCheck, Phase, Verbosity
 
